@@ -18,6 +18,26 @@ class UnknownVariable(Exception):
         self.name = name
 
 
+class TooBig(Exception):
+    """The reference refuses to compute astronomically large integers (C-level loops cannot be
+    interrupted by the watchdog); checks skip the environment."""
+
+
+def guard_power(b, e):
+    from fractions import Fraction
+    if isinstance(e, (int, Fraction)) and abs(e) > 4096:
+        raise TooBig()
+    if isinstance(b, int) and isinstance(e, int) and b.bit_length() * abs(e) > 100000:
+        raise TooBig()
+    if isinstance(b, Fraction) and isinstance(e, int) and \
+            (b.numerator.bit_length() + b.denominator.bit_length()) * abs(e) > 100000:
+        raise TooBig()
+
+
+def is_skip(o) -> bool:
+    return o[0] == "err" and o[1] == "TooBig"
+
+
 _CMP = {"==": operator.eq, "!=": operator.ne, "<": operator.lt, "<=": operator.le,
         ">": operator.gt, ">=": operator.ge}
 
@@ -121,10 +141,15 @@ class Ref:
         return self.ev(s[1]) % self.ev(s[2])
 
     def n_Power(self, s):
-        return self.ev(s[1]) ** self.ev(s[2])
+        b, e = self.ev(s[1]), self.ev(s[2])
+        guard_power(b, e)
+        return b ** e
 
     def n_LeftShift(self, s):
-        return self.ev(s[1]) << self.ev(s[2])
+        a, n = self.ev(s[1]), self.ev(s[2])
+        if isinstance(n, int) and n > 4096:
+            raise TooBig()
+        return a << n
 
     def n_RightShift(self, s):
         return self.ev(s[1]) >> self.ev(s[2])
